@@ -185,6 +185,40 @@ def run(rep, tier, seed):
             if (rl.skip_from is not None and i >= rl.skip_from) or (rg.skip_from is not None and i >= rg.skip_from):
                 continue
             pairs.append((gi, i, parse_lr(rl.results.get(("LR", i))), parse_glr(rg.results.get(("GLR", i)))))
+    # ---- (V) the hypotheses of theorem tables_agree on the REAL pair of tables of every grammar
+    vjobs, vtags = [], []
+    vlist = [gi for gi in inscope if by[(gi, "LR")].dump is not None and by[(gi, "GLR")].dump is not None
+             and by[(gi, "LR")].status == "OK" and by[(gi, "GLR")].status == "OK"]
+    nvf = max(1, min(NCPU, len(vlist) // 8 + 1))
+    for fi in range(nvf):
+        body = ["From RV Require Import Spec.Validators Spec.ValidatorsRN.\nOpen Scope nat_scope.\n"]
+        tags = []
+        for gi in vlist[fi::nvf]:
+            dl, dg = by[(gi, "LR")].dump, by[(gi, "GLR")].dump
+            body.append("Eval vm_compute in let g := %s in [wf_grammar_b g; sound_b g (%s); complete_b g (%s); "
+                        "sound_rn_b g (%s); complete_rn_b g (%s)]." % (gl_grammar(dl), gl_table(dl), gl_table(dl),
+                                                                       gl_table(dg), gl_table(dg)))
+            tags.append(gi)
+        vjobs.append(("c07tab_%d" % fi, "\n".join(body) + "\n"))
+        vtags.append(tags)
+    n_tab = n_tab_ok = 0
+    for tags, (okc, out) in zip(vtags, coq_eval_many(vjobs)):
+        ans = parse_bools(out) if okc else []
+        if len(ans) != len(tags):
+            if tags:
+                fnd.add("coq-eval", "evaluation of the table validators failed", dict(err=out[-1500:]), found_input=False)
+            continue
+        for gi, a in zip(tags, ans):
+            n_tab += 1
+            if all(a) and len(a) == 5:
+                n_tab_ok += 1
+            else:
+                names = ["wf_grammar_b", "sound_b(LR table)", "complete_b(LR table)", "sound_rn_b(GLR table)",
+                         "complete_rn_b(GLR table)"]
+                fnd.add("table-validator", "a hypothesis of theorem tables_agree is false on the real tables: %s" %
+                        ", ".join(n for n, b in zip(names, a) if not b),
+                        dict(grammar=by[(gi, "LR")].case.grammar, flags=by[(gi, "LR")].case.flags,
+                             obligation="Properties.C07.tables_agree"), found_input=False)
     # ---- first-order comparison in Python (Ok/Err, solutions, error positions); trees in Coq
     tree_jobs = []
     n_inputs = n_ok = n_err_in = n_exp_diff = n_rn = 0
@@ -265,7 +299,8 @@ def run(rep, tier, seed):
              "sentences <= %d tokens, sampled longer sentences, mutated non-sentences, the empty input, rendered with "
              "varying whitespace/newlines; non-trivial = inputs both runtimes accepted and whose trees were compared "
              "(spans, values) in Coq" % maxlen,
-        grammars_generated=len(gs), grammars_in_scope=len(inscope), byte_level_grammars_in_scope=n_byte_scope, grammars_with_conflicts=n_conf,
+        grammars_generated=len(gs), grammars_in_scope=len(inscope), byte_level_grammars_in_scope=n_byte_scope,
+        table_pairs_validated=n_tab, table_pairs_passing_all_hypotheses_of_tables_agree=n_tab_ok, grammars_with_conflicts=n_conf,
         grammars_compiler_error=n_err, shapes=shapes,
         inputs_accepted_by_both=n_ok, inputs_rejected_by_both=n_err_in, trees_compared=n_cmp,
         trees_with_elided_children=n_rn, expected_set_differs_same_position=n_exp_diff, samples=samples)
